@@ -1,6 +1,6 @@
 (* Props/C08.v — property C08: NaN and None are the same null, and nulls are transparent to the valid
    aggregations.  Statements only (proofs in Proofs/ViewBase.v, NullView.v, NullOrder.v, EncRolling.v,
-   EncMaps.v, CastOutput.v).
+   EncMaps.v, CastOutput.v, EncRank.v, TransQuantile.v, TransRank.v, TransPartition.v).
 
    Reading guide.  A : the inner numeric type (any carrier: the theorems use no law of the numeric class, so
    they hold bit for bit at binary64 as well as at option R and Z);  T with D : IsNone T A : an element type
@@ -17,8 +17,8 @@ From Coq Require Import Reals List ZArith.
 From Tevec Require Import Base.Prelude Base.Num Base.XR Model.Driver Model.Features Model.Cmp Model.Norm
      Model.Binary Model.Reg Model.Fdiff Model.Agg Model.NullView
      Proofs.AggGeneric Proofs.ViewBase Proofs.NullView Proofs.EncRolling.
-From Tevec Require Model.SortCmp Model.Quantile Model.Rank Model.MapOps Model.Cast Proofs.Cast Proofs.NullOrder Proofs.EncMaps
-     Proofs.CastOutput.
+From Tevec Require Model.SortCmp Model.Quantile Model.Rank Model.Partition Model.MapOps Model.Cast Proofs.Cast Proofs.NullOrder
+     Proofs.EncMaps Proofs.CastOutput Proofs.EncRank Proofs.TransQuantile Proofs.TransRank Proofs.TransPartition.
 Import ListNotations.
 
 (* ======================= (a) re-encoding the input ======================================================= *)
@@ -226,14 +226,88 @@ Proof.
   split; [apply EncMaps.mrel_float_opt|apply EncMaps.imap_rel_float_opt].
 Qed.
 
-(* not proved (checked by the correspondence on every run only): the rank map `vrank` (vec_map.rs:112-276) under
-   re-encoding — its model (Model/Rank.v) sorts an index vector with the comparator of C08_encoding_order_statistics,
-   so the statement is expected to follow from isort_rel; the full statement is kept visible here *)
+(* ---- the rank map `vrank` (vec_map.rs:112-276, Model/Rank.v) and the partitions (Model/Partition.v) ------------- *)
+(* The first version of this file kept the following statement as "expected to hold, not proved".  It quantifies over
+   ARBITRARY `IsNoneX` instances, i.e. over an arbitrary `==` (PartialEq) on the two element types, and the run-length
+   loop of vrank detects ties with `==`: as it stands the statement is FALSE (C08_encoding_vrank_statement_refuted
+   below: same series, same dictionary, two different `==`).  This is a defect of the recorded statement, not of the
+   code or of the model: the missing hypothesis is that `==` agrees under the two encodings on non-null elements
+   (EncRank.EqbView — true for f64 `==` vs Option<f64> `==`, C08_encoding_vrank_instances).  With it the statement holds
+   for every carrier, every pct / rev: C08_encoding_vrank.                                                              *)
 Definition C08_encoding_vrank_statement : Prop :=
   forall (A : Type) (NA : Num A) (T1 T2 : Type) (D1 : IsNone T1 A) (D2 : IsNone T2 A)
          (DX1 : SortCmp.IsNoneX T1 A) (DX2 : SortCmp.IsNoneX T2 A) (pct rev : bool) (xs1 : list T1) (xs2 : list T2),
     SameView D1 D2 xs1 xs2 ->
     Tevec.Model.Rank.vrank (DT := D1) (DX := DX1) pct rev xs1 = Tevec.Model.Rank.vrank (DT := D2) (DX := DX2) pct rev xs2.
+
+Theorem C08_encoding_vrank_statement_refuted : ~ C08_encoding_vrank_statement.
+Proof.
+  intros H.
+  specialize (H Z NumZ Z Z IsNone_float IsNone_float
+                {| SortCmp.tnone := Ok 0%Z; SortCmp.teqb := fun _ _ => true |}
+                {| SortCmp.tnone := Ok 0%Z; SortCmp.teqb := fun _ _ => false |}
+                false false [1%Z; 2%Z] [1%Z; 2%Z]).
+  assert (HS : SameView (IsNone_float (H := NumZ)) (IsNone_float (H := NumZ)) [1%Z; 2%Z] [1%Z; 2%Z])
+    by (repeat constructor).
+  specialize (H HS). vm_compute in H. discriminate H.
+Qed.
+
+(* vrank under re-encoding: EQUAL outputs (same nullness, same rank value at every position), every carrier, every
+   pair of dictionaries whose `==` agree on non-null elements, every pct / rev, every series (also length 0 / 1, all
+   null, ties) *)
+Theorem C08_encoding_vrank :
+  forall (A : Type) (NA : Num A) (T1 T2 : Type) (D1 : IsNone T1 A) (D2 : IsNone T2 A)
+         (DX1 : SortCmp.IsNoneX T1 A) (DX2 : SortCmp.IsNoneX T2 A) (pct rev : bool) (xs1 : list T1) (xs2 : list T2),
+    EncRank.EqbView D1 D2 DX1 DX2 -> SameView D1 D2 xs1 xs2 ->
+    Tevec.Model.Rank.vrank (DT := D1) (DX := DX1) pct rev xs1 = Tevec.Model.Rank.vrank (DT := D2) (DX := DX2) pct rev xs2.
+Proof. intros A NA T1 T2 D1 D2 DX1 DX2 pct rev xs1 xs2 HE HS. apply EncRank.vrank_view; assumption. Qed.
+
+(* the hypotheses on `==` and on `T::none()` hold for the real dictionaries, in every combination *)
+Theorem C08_encoding_vrank_instances :
+  forall (A : Type) (NA : Num A),
+    EncRank.EqbView (IsNone_float (A := A)) IsNone_option SortCmp.IsNoneX_float SortCmp.IsNoneX_option /\
+    EncRank.EqbView (IsNone_option (A := A)) IsNone_float SortCmp.IsNoneX_option SortCmp.IsNoneX_float /\
+    EncRank.EqbView (IsNone_float (A := A)) IsNone_float SortCmp.IsNoneX_float SortCmp.IsNoneX_float /\
+    EncRank.EqbView (IsNone_option (A := A)) IsNone_option SortCmp.IsNoneX_option SortCmp.IsNoneX_option /\
+    (nisnan (nnan (A := A)) = true ->
+     EncRank.tnone_rel (IsNone_float (A := A)) IsNone_option SortCmp.IsNoneX_float SortCmp.IsNoneX_option /\
+     EncRank.tnone_rel (IsNone_option (A := A)) IsNone_float SortCmp.IsNoneX_option SortCmp.IsNoneX_float).
+Proof.
+  intros A NA. split; [apply EncRank.eqb_view_float_option|]. split; [apply EncRank.eqb_view_option_float|].
+  split; [apply EncRank.eqb_view_float_float|]. split; [apply EncRank.eqb_view_option_option|].
+  intros H. split; [apply EncRank.tnone_rel_float_option|apply EncRank.tnone_rel_option_float]; exact H.
+Qed.
+
+(* the concrete reading: a float series (NaN = null) and its Option rendering have the same ranks, for EVERY carrier *)
+Theorem C08_encoding_vrank_float_vs_option :
+  forall (A : Type) (NA : Num A) (pct rev : bool) (xs : list A),
+    Tevec.Model.Rank.vrank (DT := IsNone_float) (DX := SortCmp.IsNoneX_float) pct rev xs =
+    Tevec.Model.Rank.vrank (DT := IsNone_option) (DX := SortCmp.IsNoneX_option) pct rev
+                           (map (fun x => if nisnan x then None else Some x) xs).
+Proof.
+  intros A NA pct rev xs. apply EncRank.vrank_view; [apply C08_encoding_float_vs_option|apply EncRank.eqb_view_float_option].
+Qed.
+
+(* vpartition returns elements of the input type: same panic, or outputs with pointwise equal option views — stated
+   both ways; varg_partition returns indices: EQUAL outputs.  Every kth, sort, rev.  (The order of ties is unspecified
+   in std; this is about the model's deterministic stable sort, whose ties keep the input order under both encodings.) *)
+Theorem C08_encoding_partition :
+  forall (A : Type) (NA : Num A) (T1 T2 : Type) (D1 : IsNone T1 A) (D2 : IsNone T2 A)
+         (DX1 : SortCmp.IsNoneX T1 A) (DX2 : SortCmp.IsNoneX T2 A) (kth : nat) (sort rev : bool)
+         (xs1 : list T1) (xs2 : list T2),
+    SameView D1 D2 xs1 xs2 ->
+    Tevec.Model.Partition.varg_partition (DT := D1) kth sort rev xs1
+      = Tevec.Model.Partition.varg_partition (DT := D2) kth sort rev xs2 /\
+    (EncRank.tnone_rel D1 D2 DX1 DX2 ->
+     EncRank.res_view D1 D2 (Tevec.Model.Partition.vpartition (DT := D1) (DX := DX1) kth sort rev xs1)
+                            (Tevec.Model.Partition.vpartition (DT := D2) (DX := DX2) kth sort rev xs2) /\
+     EncRank.res_opt_view (D := D1) (Tevec.Model.Partition.vpartition (DT := D1) (DX := DX1) kth sort rev xs1)
+       = EncRank.res_opt_view (D := D2) (Tevec.Model.Partition.vpartition (DT := D2) (DX := DX2) kth sort rev xs2)).
+Proof.
+  intros A NA T1 T2 D1 D2 DX1 DX2 kth sort rev xs1 xs2 HS. split; [apply EncRank.varg_partition_view; exact HS|].
+  intros HT. pose proof (EncRank.vpartition_view D1 D2 DX1 DX2 xs1 xs2 HS kth sort rev HT) as H.
+  split; [exact H|apply EncRank.res_view_opt_view; exact H].
+Qed.
 
 (* ======================= (b) the encoding of the output ================================================== *)
 (* a result (f64, or Option<f64> for the rolling extrema) cast into f64 / f32 / Option<f64> / Option<i32>: null goes
@@ -302,6 +376,117 @@ Theorem C08_transparent_quantile :
     Quantile.vquantile q m ys = Quantile.vquantile q m xs /\ Quantile.vmedian ys = Quantile.vmedian xs.
 Proof. intros q m xs ys H. split; [apply NullOrder.vquantile_insert|apply NullOrder.vmedian_insert]; exact H. Qed.
 
+(* ---- quantile / median transparency at EVERY carrier (no Reals, no order law) ------------------------------------ *)
+(* the model of std's sort under sort_cmp / sort_cmp_rev puts the sorted non-null elements first and the nulls last,
+   whatever the comparison of two non-null values does; the sorted non-null part is literally the same term for a series
+   and for the series with nulls inserted *)
+Theorem C08_transparent_sort :
+  forall {A} {NA : Num A} {T} {D : IsNone T A} (rev : bool) (xs ys : list T),
+    SortCmp.isort (SortCmp.cmp_dir rev) ys
+      = SortCmp.isort (SortCmp.cmp_dir rev) (filter not_none ys) ++ filter is_none ys /\
+    (NullInsert xs ys -> filter not_none ys = filter not_none xs).
+Proof. intros A NA T D rev xs ys. split; [apply TransQuantile.isort_split|apply TransQuantile.filter_valid_insert]. Qed.
+
+(* every successful quantile / median of the original series is the quantile / median of the series with nulls
+   inserted — the same term, hence bit for bit at binary64: every carrier, every dictionary, every q (in range, out of
+   range, NaN), every method, every insertion pattern.  (For an index j = ceil((n-1) q) >= n — which the law-free
+   `NumFloor` class does not exclude — select_nth_unstable_by may panic on the shorter series only; hence `Ok r`.) *)
+Theorem C08_transparent_quantile_generic :
+  forall {A} {NA : Num A} {NF : SortCmp.NumFloor A} {T} {D : IsNone T A} (q : A) (m : Quantile.qmethod) (xs ys : list T),
+    NullInsert xs ys ->
+    (forall r, Quantile.vquantile q m xs = Ok r -> Quantile.vquantile q m ys = Ok r) /\
+    (forall r, Quantile.vmedian xs = Ok r -> Quantile.vmedian ys = Ok r).
+Proof.
+  intros A NA NF T D q m xs ys H. split; intros r Hr.
+  - apply (TransQuantile.vquantile_insert_ok _ _ _ _ _ H Hr).
+  - apply (TransQuantile.vmedian_insert_ok _ _ _ H Hr).
+Qed.
+
+(* outright equality for every carrier whose ceil satisfies the index law ceil((n-1) q) <= n-1 for q in [0, 1] *)
+Theorem C08_transparent_quantile_index_law :
+  forall {A} {NA : Num A} {NF : SortCmp.NumFloor A} {T} {D : IsNone T A},
+    TransQuantile.QIdxLaw (A := A) ->
+    forall (q : A) (m : Quantile.qmethod) (xs ys : list T),
+      NullInsert xs ys ->
+      Quantile.vquantile q m ys = Quantile.vquantile q m xs /\ Quantile.vmedian ys = Quantile.vmedian xs.
+Proof. intros A NA NF T D HL q m xs ys H. apply TransQuantile.vquantile_insert_law; assumption. Qed.
+
+(* the index law holds at option R (so C08_transparent_quantile is also an instance of the generic theorem) *)
+Theorem C08_quantile_index_law_real : TransQuantile.QIdxLaw (A := XR) (NF := OrderXR.NumFloorXR).
+Proof. exact TransRank.qidx_law_xr. Qed.
+
+(* re-encoding and insertion composed, for the order statistics: a float series against an optional series with extra
+   Nones, every carrier *)
+Theorem C08_transparent_quantile_across_encodings :
+  forall {A} {NA : Num A} {NF : SortCmp.NumFloor A} {T1 T2} (D1 : IsNone T1 A) (D2 : IsNone T2 A)
+         (q : A) (m : Quantile.qmethod) (xs : list T1) (xs' ys : list T2),
+    SameView D1 D2 xs xs' -> NullInsert xs' ys ->
+    (forall r, Quantile.vquantile (DT := D1) q m xs = Ok r -> Quantile.vquantile (DT := D2) q m ys = Ok r) /\
+    (forall (sc1 : T1) (sc2 : T2) pm, same_view D1 D2 sc1 sc2 ->
+       Quantile.vpercentile_of (DT := D2) sc2 pm ys = Quantile.vpercentile_of (DT := D1) sc1 pm xs).
+Proof.
+  intros A NA NF T1 T2 D1 D2 q m xs xs' ys HS HI. split.
+  - intros r Hr. apply (TransQuantile.vquantile_insert_ok _ _ _ _ _ HI).
+    rewrite <- (NullOrder.vquantile_same_view D1 D2 q m _ _ HS). exact Hr.
+  - intros sc1 sc2 pm E. rewrite (NullOrder.vpercentile_of_insert sc2 pm _ _ HI). symmetry.
+    apply NullOrder.vpercentile_of_same_view; assumption.
+Qed.
+
+(* ---- vpartition under null insertion: every carrier ------------------------------------------------------------------ *)
+(* read through the option view, the partition (the kth + 1 first elements of the sorted series, padded with T::none())
+   is a function of the non-null elements only, so inserting nulls does not change it; T::none() must be a null (on the
+   integer types it panics, and then a short series panics where a longer one needs no padding) *)
+Theorem C08_transparent_partition :
+  forall {A} {NA : Num A} {T} {D : IsNone T A} {DX : SortCmp.IsNoneX T A} (kth : nat) (sort rev : bool) (pad : T)
+         (xs ys : list T),
+    SortCmp.tnone = Ok pad -> is_none pad = true -> NullInsert xs ys ->
+    EncRank.res_opt_view (Tevec.Model.Partition.vpartition kth sort rev ys)
+    = EncRank.res_opt_view (Tevec.Model.Partition.vpartition kth sort rev xs) /\
+    EncRank.res_opt_view (Tevec.Model.Partition.vpartition kth sort rev xs)
+    = Ok (TransPartition.part_of_valid kth sort rev pad (filter not_none xs)).
+Proof.
+  intros A NA T D DX kth sort rev pad xs ys HT HP HI.
+  split; [apply (TransPartition.vpartition_insert kth sort rev pad); assumption|
+          apply TransPartition.vpartition_by_valid; assumption].
+Qed.
+
+(* ---- the rank map under null insertion (option R, from the C12 characterisation) --------------------------------- *)
+(* the ranks of the original elements are unchanged and the inserted positions carry the null rank: the output for the
+   series with nulls inserted by pattern p is the output for the original series with null ranks inserted by p *)
+Theorem C08_transparent_rank :
+  forall (pct rev : bool) (p : list bool) (xs : list XR),
+    Tevec.Model.Rank.vrank (DX := Proofs.Partition.IsNoneXXR) pct rev (insert_pat None p xs)
+    = insert_pat (Some None) p (Tevec.Model.Rank.vrank (DX := Proofs.Partition.IsNoneXXR) pct rev xs).
+Proof. exact TransRank.vrank_insert_pat. Qed.
+
+(* the same for the inductive relation: every insertion is a pattern insertion, and an original element found at
+   position i of xs and at position j of ys has the same rank slot *)
+Theorem C08_transparent_rank_insert :
+  forall (pct rev : bool) (xs ys : list XR),
+    NullInsert (D := IsNoneXR) xs ys ->
+    (exists p, ys = insert_pat None p xs /\
+               Tevec.Model.Rank.vrank (DX := Proofs.Partition.IsNoneXXR) pct rev ys
+               = insert_pat (Some None) p (Tevec.Model.Rank.vrank (DX := Proofs.Partition.IsNoneXXR) pct rev xs)) /\
+    (forall i j x, nth_error xs i = Some x -> nth_error ys j = Some x ->
+       nth_error (Tevec.Model.Rank.vrank (DX := Proofs.Partition.IsNoneXXR) pct rev ys) j
+       = nth_error (Tevec.Model.Rank.vrank (DX := Proofs.Partition.IsNoneXXR) pct rev xs) i).
+Proof.
+  intros pct rev xs ys H. split; [apply TransRank.vrank_null_insert; exact H|].
+  intros i j x Hi Hj. apply (TransRank.vrank_insert_same_slot pct rev xs ys i j x H Hi Hj).
+Qed.
+
+(* NOT PROVED — the rank map under null insertion at a generic carrier.  Without a law it is false: a series with ONE valid
+   element of length 1 takes the early return and gets the literal 1.0 (`none`), the same element in a longer series gets
+   `1 as f64 / 1 as f64` from the loop; with that one law the statement below is expected to hold (checked by vm_compute
+   on every series over {1, 2, null} and every pattern up to length 4 on the integer carrier; what is missing is a
+   relational induction through the run-length loop along the position embedding: notes/C08.md).  Proved part:
+   C08_transparent_rank (option R). *)
+Definition C08_transparent_rank_generic_full_statement : Prop :=
+  forall (A : Type) (NA : Num A) (T : Type) (D : IsNone T A) (DX : SortCmp.IsNoneX T A),
+    ndiv (nofnat (A := A) 1) (nofnat 1) = none ->
+    forall (pct rev : bool) (nl : T) (p : list bool) (xs : list T), is_none nl = true ->
+      Tevec.Model.Rank.vrank pct rev (insert_pat nl p xs) = insert_pat (Some nnan) p (Tevec.Model.Rank.vrank pct rev xs).
+
 (* two series with pairwise deletion: inserting pairs that are not pairwise complete *)
 Theorem C08_transparent_two_series :
   forall {A} {NA : Num A} {F} {NF : Num F} (tof : A -> F) {T1 T2} {D1 : IsNone T1 A} {D2 : IsNone T2 A}
@@ -358,6 +543,33 @@ Example C08_ex_output_types :
   In (Model.Cast.Opt (Model.Cast.N Model.Cast.I32)) CastOutput.output_tys.
 Proof. split; cbn; auto. Qed.
 
+(* the hypotheses of the new theorems are satisfiable: `==` / T::none() at option R; a successful quantile on an
+   integer carrier with an identity floor / ceil (q = 1: the maximum) *)
+Example C08_ex_tnone_rel :
+  EncRank.tnone_rel (IsNone_float (A := XR)) IsNone_option SortCmp.IsNoneX_float SortCmp.IsNoneX_option.
+Proof. apply EncRank.tnone_rel_float_option. reflexivity. Qed.
+Example C08_ex_vrank_tie :
+  Tevec.Model.Rank.vrank (DT := IsNone_option (H := NumZ)) (DX := SortCmp.IsNoneX_option) false false
+                         [Some 7%Z; None; Some 7%Z; Some 7%Z; Some 3%Z]
+  = [Some 3%Z; Some 0%Z; Some 3%Z; Some 3%Z; Some 1%Z] /\
+  Tevec.Model.Partition.varg_partition (DT := IsNone_option (H := NumZ)) 1 true false [Some 7%Z; None; Some 7%Z; Some 7%Z; Some 3%Z]
+  = [4%Z; 0%Z].
+Proof. split; vm_compute; reflexivity. Qed.
+Example C08_ex_quantile_ok :
+  Quantile.vquantile (NA := NumZ) (NF := {| SortCmp.nfloorZ := fun z => z; SortCmp.nceilZ := fun z => z |})
+                     (DT := IsNone_option (H := NumZ)) 1%Z Quantile.Lower [Some 3%Z; None; Some 5%Z]
+  = Ok (Some 5%Z).
+Proof. vm_compute. reflexivity. Qed.
+Example C08_ex_rank_pattern :
+  insert_pat (Some (@None R)) [true; false; true] [Some (Some 1%R); Some (Some 2%R)]
+  = [Some None; Some (Some 1%R); Some None; Some (Some 2%R)].
+Proof. reflexivity. Qed.
+
+Example C08_ex_tnone_null :
+  SortCmp.tnone (IsNoneX := SortCmp.IsNoneX_option (H := NumZ)) = Ok None /\
+  is_none (IsNone := IsNone_option (H := NumZ)) None = true.
+Proof. split; reflexivity. Qed.
+
 Print Assumptions C08_encoding_aggregations.
 Print Assumptions C08_encoding_order_statistics.
 Print Assumptions C08_encoding_rolling_cmp.
@@ -367,3 +579,16 @@ Print Assumptions C08_output_encoding.
 Print Assumptions C08_transparent_aggregations.
 Print Assumptions C08_transparent_quantile.
 Print Assumptions C08_transparent_two_series.
+Print Assumptions C08_encoding_vrank_statement_refuted.
+Print Assumptions C08_encoding_vrank.
+Print Assumptions C08_encoding_vrank_instances.
+Print Assumptions C08_encoding_vrank_float_vs_option.
+Print Assumptions C08_encoding_partition.
+Print Assumptions C08_transparent_sort.
+Print Assumptions C08_transparent_quantile_generic.
+Print Assumptions C08_transparent_quantile_index_law.
+Print Assumptions C08_quantile_index_law_real.
+Print Assumptions C08_transparent_rank.
+Print Assumptions C08_transparent_rank_insert.
+Print Assumptions C08_transparent_quantile_across_encodings.
+Print Assumptions C08_transparent_partition.
